@@ -41,8 +41,39 @@ def run(out, info, tier, seed):
                                known_match=None, hyp=None,
                                extra_obligations=[('Sched.Inv (invariant preserved by every event)', 'Sched/Inv'),
                                                   ('Sched.Guards / Sched.Final', 'Sched/Final')])
+    out.coverage['realtime_lazy_configs'] = realtime_lazy(out)
     out.coverage['nontrivial_rule'] = 'at some quiescent point at least two simulators were in flight (a producer could have run ahead)'
 
 
+def realtime_lazy(out):
+    """lazy stepping also holds in real-time mode: a producer paced by the clock does not begin a step while its (slow,
+    really suspending) consumer still has an earlier step outstanding - run on the virtual clock of the C17 harness"""
+    from . import c17
+    n = 0
+    for rt in (0.5, 1.0):
+        for dur in (2.5, 4.0):
+            cfg = dict(rt=rt, res=1.0, until=6, strict=False, sims=[{}, {'duration': rt * dur}], connect=[(0, 1)])
+            r = c17.trial(cfg); n += 1
+            ended = set(); bad = []
+            for l in r['log']:
+                if l[0] == 'END': ended.add((l[1], l[2]))
+                if l[0] == 'BEGIN' and l[1] == 'S0':
+                    t = l[2]
+                    late = [tc for tc in range(0, t) if ('S1', tc) not in ended]
+                    if late: bad.append(f'S0 began its step at {t} while its consumer S1 had not finished its step(s) at {late}')
+            if r['outcome'] != 'returned': bad.append(f"run failed: {r['outcome']}")
+            if bad:
+                out.violations.append(dict(kind='realtime_lazy', config=cfg, observed=bad[:3]))
+                return n
+    return n
+
+
 def replay(path, out):
+    import json
+    r = json.load(open(path))
+    if r.get('kind') == 'realtime_lazy':
+        o = common.Outcome('C10', 'quick', 0); realtime_lazy(o)
+        for v in o.violations: print(v['observed'])
+        if o.violations: print(f'VIOLATION property=C10 replay={path}')
+        return 1 if o.violations else 0
     return sched_check.replay_trace(path, 'C10', monitors.P_C10, KINDS)
